@@ -59,13 +59,14 @@ func drawUCIGenCfg(rng *rand.Rand, stub bool) UCIGenCfg {
 }
 
 type genGo struct {
-	ponder   bool
-	hitSent  bool
-	stopSent bool
-	steps    int
-	limit    int
-	drained  bool
-	swept    bool
+	ponder    bool
+	hitSent   bool
+	stopSent  bool
+	steps     int
+	limit     int
+	drained   bool
+	swept     bool
+	bigQuanta bool
 }
 
 // uciGen is the PRNG-driven GUI and scheduler policy: it only ever emits
@@ -361,6 +362,10 @@ func (g *uciGen) idle(w *uciWorld) {
 				g.queue = append(g.queue, UStep{Op: "in", Data: pick(r, []string{"quit", "isready", "stop"})}, UStep{Op: "eof"})
 			case r.IntN(2) == 0:
 				g.send("quit")
+				if r.IntN(5) == 0 {
+					// a piped script in which quit is not the last line
+					g.send(pick(r, []string{"isready", "stop", "uci", "quit"}))
+				}
 			default:
 				g.queue = append(g.queue, UStep{Op: "eof"})
 			}
@@ -385,6 +390,13 @@ func (g *uciGen) idle(w *uciWorld) {
 			g.cur.limit = 15 + r.IntN(60)
 		} else {
 			g.cur.limit = 2 + r.IntN(40)
+		}
+		for _, f := range tinyTreeFENs {
+			if g.game.Start.FEN() == f {
+				// let the search run long enough to hit the ply cap by itself
+				g.cur.bigQuanta = true
+				g.cur.limit = 40 + r.IntN(60)
+			}
 		}
 		if g.cfg.Stub {
 			sg := StubGo{Move: "e2e4"}
@@ -501,6 +513,9 @@ func (g *uciGen) during(w *uciWorld) {
 	if w.parked {
 		opts = append(opts, opt{6, func() {
 			q := g.quantum()
+			if c.bigQuanta {
+				q = 3000 + r.IntN(3000)
+			}
 			cost := int64(q) * g.cfg.PollCostUS
 			if r.IntN(40) == 0 {
 				cost += int64(r.IntN(3_000_000)) // a stalled engine / clock jump
